@@ -71,6 +71,9 @@ def run_c02(rep):
 
 
 C02_SESSIONS = [
+    # a rejected index when the undo history is full (50 restore points): nothing observable changes, undo availability included
+    (":: Start\n~ n = 0\nhub\n+ [step] -> Loop\n\n:: Loop\n~ n = n + 1\nstep {n}\n+ [again] -> Loop\n",
+     [{"op": "choose", "i": 0}] * 53 + [{"op": "choose", "i": 7}, {"op": "choose", "i": -1}] + [{"op": "undo"}] * 50 + [{"op": "can_undo"}, {"op": "undo"}]),
     # fixed sessions judged by the same oracle as the generated ones: one-time choices whose text holds colons (written out or
     # produced by interpolation), taken, then saved and loaded (same engine / a fresh one), undone and redone
     (":: Start\n~ h = 12\nhub\n* [Ask: \"Who?\"] -> Answer\n* [Check (12:30)] -> Answer\n* [a:b:c] -> Answer\n* [plain] -> Answer\n+ [wait] -> Start\n\n:: Answer\nanswer\n+ [back] -> Start\n",
@@ -163,6 +166,8 @@ def run_c07(rep):
                          oracle_names=["oracle_c07"], known_classes=known_classes("C07"), label="c07")
     compile_tie(rep, "c07-compile", dict(params=0.9, block_jumps=0.4, top_jumps=0.4, block_choices=0.7))
     c07_sessions(rep)
+    import fam_reads
+    fam_reads.once_sessions(rep, sizes(rep, 30, 400))      # a default is evaluated when - and only when - the call relies on it
     # call sites that do NOT follow Python's call rule must be rejected by the compiler (or fail as Python would): the same
     # corrupted-call-site family that decides C12, judged by Python's own ast + call rule
     import fam_graph
@@ -269,15 +274,16 @@ def c09_sessions(rep, n_walks):
     rep.coverage["evaluations"] = rep.coverage.get("evaluations", 0) + n
 
 
-C09_SWAP_STORY = (":: Start\n~ hu = 0\n~ fa = 0\n@hook turn_end Hunger\nBegin\n+ [wait] -> Hub\n\n"
-                  ":: Hub\nhub\n+ [swap] -> Swap\n+ [rehook] -> Rehook\n+ [drop] -> Drop\n+ [both] -> Both\n+ [wait] -> Hub\n\n"
+C09_SWAP_STORY = (":: Start\n~ hu = 0\n~ fa = 0\n~ ro = 0\n@hook turn_end Hunger\nBegin\n+ [wait] -> Hub\n\n"
+                  ":: Hub\nhub\n+ [swap] -> Swap\n+ [rehook] -> Rehook\n+ [drop] -> Drop\n+ [both] -> Both\n+ [wait] -> Hub\n+ [rot] -> RotOn\n\n"
+                  ":: RotOn\n@hook turn_end Rot\nrotting\n+ [back] -> Hub\n\n:: Rot\n~ ro = ro + 1\n@unhook turn_end Rot\n@hook turn_end Rot\n\n"
                   ":: Swap\n@unhook turn_end Hunger\n@hook turn_end Fatigue\nswapped\n+ [back] -> Hub\n\n"
                   ":: Rehook\n@hook turn_end Hunger\nrehooked\n+ [back] -> Hub\n\n"
                   ":: Drop\n@unhook turn_end Fatigue\ndropped\n+ [back] -> Hub\n\n"
                   ":: Both\n@hook turn_end Fatigue\n@hook turn_end Hunger\n@hook turn_end Fatigue\nboth\n+ [back] -> Hub\n\n"
                   ":: Hunger\n~ hu = hu + 1\n\n:: Fatigue\n~ fa = fa + 1\n")
 C09_EFFECT = {"Swap": [("-", "Hunger"), ("+", "Fatigue")], "Rehook": [("+", "Hunger")], "Drop": [("-", "Fatigue")],
-              "Both": [("+", "Fatigue"), ("+", "Hunger"), ("+", "Fatigue")], "Hub": [], "Start": [("+", "Hunger")]}
+              "Both": [("+", "Fatigue"), ("+", "Hunger"), ("+", "Fatigue")], "Hub": [], "Start": [("+", "Hunger")], "RotOn": [("+", "Rot")]}
 
 
 def c09_swap_sessions(rep, n_walks):
@@ -294,7 +300,7 @@ def c09_swap_sessions(rep, n_walks):
         if st0 != "ok":
             rep.violations.append({"cls": None, "family": "c09-swap", "what": f"session does not start: {init}", "source": C09_SWAP_STORY})
             return
-        cur = {"hooks": ["Hunger"], "hu": 0, "fa": 0}
+        cur = {"hooks": ["Hunger"], "hu": 0, "fa": 0, "ro": 0}
         past, future, slots, ops, prev = [], [], [], [], init
         for _ in range(r.randint(4, 18)):
             kind = r.choice(["choose"] * 5 + ["undo", "undo", "redo", "save", "load", "load"])
@@ -313,7 +319,10 @@ def c09_swap_sessions(rep, n_walks):
                     elif sign == "-" and h in cur["hooks"]:
                         cur["hooks"].remove(h)
                 for h in list(cur["hooks"]):
-                    cur["hu" if h == "Hunger" else "fa"] += 1
+                    cur[{"Hunger": "hu", "Fatigue": "fa", "Rot": "ro"}[h]] += 1
+                    if h == "Rot":      # it unhooks itself and hooks itself again: it moves to the back and stays registered
+                        cur["hooks"].remove("Rot")
+                        cur["hooks"].append("Rot")
             elif kind == "undo":
                 op = {"op": "undo"}
                 if past:
@@ -337,7 +346,7 @@ def c09_swap_sessions(rep, n_walks):
             ops.append(op)
             step = rp.op(op)
             st = step["state"]
-            got = {"hooks": st["hooks"].get("turn_end", []), "hu": st["vars"].get("hu"), "fa": st["vars"].get("fa")}
+            got = {"hooks": st["hooks"].get("turn_end", []), "hu": st["vars"].get("hu"), "fa": st["vars"].get("fa"), "ro": st["vars"].get("ro")}
             if "raise" in step["resp"] or got != cur:
                 rep.violations.append({"cls": None, "family": "c09-swap", "source": C09_SWAP_STORY, "ops": list(ops), "variant": "main",
                                        "what": (f"after {op} the hooks registered for turn_end and the run counters are {got}"
@@ -351,6 +360,9 @@ def c09_swap_sessions(rep, n_walks):
 
 
 C10_SESSIONS = [
+    # two '-> @join' choices with the same label, told apart by their conditions: the block shown is the block of the one on offer
+    (":: Start\n~ brave = False\n~ marks = []\ngo\n+ [in] -> J\n\n:: J\nS0\n+ {brave} [Enter] -> @join\n    ~ marks.append('bold')\n    You stride in.\n+ {not brave} [Enter] -> @join\n    ~ marks.append('shy')\n    You creep in.\n@join\nS1 {marks}\n+ [x] -> Start\n",
+     [{"op": "choose", "i": 0}, {"op": "choose", "i": 0}], {1: "You creep in.\nS1 ['shy']\n"}),
     # a turn_end hook that fails on a '-> @join' turn: the choice raises, the screen it rendered stays, play goes on from it
     (":: Start\n~ t = 0\n@hook turn_end Tick\ngo\n+ [in] -> J\n\n:: J\nS0\n+ [n1] -> @join\n@join\nS1\n+ [n2] -> @join\n@join\nS2\n+ [n3] -> @join\n@join\nS3\n+ [x] -> Start\n\n"
      ":: Tick\n~ t = t + 1\n~ z = 1 % (2 - t)\n",
